@@ -28,7 +28,8 @@ BOUND = 90
 EXHAUSTIVE = {'quick': False, 'thorough': True}
 
 
-FAIL_CLASSES = [None, 'TimeoutError', None, 'queue.Empty', 'KeyError', None, 'MpTimeout', 'ConnectionResetError', 'EOFError', 'LookupError', 'asyncio.QueueEmpty', 'BrokenPipeError']
+# a class name, None = the harness's own Boom, an int = Boom raised that many call levels below call() (deep stacks)
+FAIL_CLASSES = [None, 'TimeoutError', 14, 'queue.Empty', 'KeyError', 40, 'MpTimeout', 'ConnectionResetError', 'EOFError', 3, 'LookupError', 'asyncio.QueueEmpty', 'BrokenPipeError']
 
 
 def shapes(tier):
@@ -151,7 +152,7 @@ def _async_classes(case):
 
     viol = []
     obs = {'lifetimes': 1, 'requests': 0, 'failed_requests': 0, 'ok_requests': 0, 'async_class_lifetimes': 1}
-    classes = [c for c in FAIL_CLASSES if c] + ['StopIteration']
+    classes = [c for c in FAIL_CLASSES if c and not isinstance(c, int)] + ['StopIteration']
     servlet = (ProcessServlet if case['leaf'] == 'P' else ThreadServlet)(ST.TagWorker, tag='A')
 
     async def main():
